@@ -187,6 +187,48 @@ theorem C18_prefilter_inverts_partial {K : Type} [Field K] (z c0 : K) (n : Nat) 
       field_simp
       linear_combination 3 * this
 
+/-- **C18-T4 (partial: order 4, every sample but the first two).** For order 4 `spline_filter1d` runs the
+one-pole recursion twice, the second pass on the output of the first. If `z₁, z₂` are exact roots of
+`z² + λᵢz + 1` with `λ₁ + λ₂ = 76`, `λ₁λ₂ = 228` (the factorisation of the sampled quartic B-spline
+`(1, 76, 230, 76, 1)/384`; `init_poles`' values satisfy this to rounding) then the weight
+`(1−z₁)(1−1/z₁)(1−z₂)(1−1/z₂)` is 384 and, for any initial values of the two causal passes, the coefficients
+satisfy `(c[k−2] + 76c[k−1] + 230c[k] + 76c[k+1] + c[k+2])/384 = f[k]` at every sample `2 ≤ k ≤ n−3` and, with
+the mirrored knots `c[n] = c[n−2]`, `c[n+1] = c[n−3]`, at the last two samples. **Missing**: samples 0 and 1
+(they depend on the initial sums) and the approximate poles. -/
+theorem C18_prefilter_inverts_order4_partial {K : Type} [Field K] (z1 z2 l1 l2 c1 c2 : K) (n : Nat) (hn : 4 ≤ n)
+    (h1 : z1 * z1 + l1 * z1 + 1 = 0) (h2 : z2 * z2 + l2 * z2 + 1 = 0)
+    (hz1 : z1 * z1 - 1 ≠ 0) (hz2 : z2 * z2 - 1 ≠ 0) (hs : l1 + l2 = 76) (hp : l1 * l2 = 228)
+    (h384 : (384 : K) ≠ 0) (f : Nat → K) :
+    let c := onePole z2 c2 n (onePole z1 c1 n (fun i => 384 * f i))
+    (1 - z1) * (1 - 1 / z1) * ((1 - z2) * (1 - 1 / z2)) = 384 ∧
+    (∀ k, 2 ≤ k → k + 3 ≤ n →
+      1 / 384 * c (k - 2) + 19 / 96 * c (k - 1) + 115 / 192 * c k + 19 / 96 * c (k + 1) + 1 / 384 * c (k + 2) = f k) ∧
+    (1 / 384 * c (n - 4) + 19 / 96 * c (n - 3) + 115 / 192 * c (n - 2) + 19 / 96 * c (n - 1) + 1 / 384 * c (n - 2)
+      = f (n - 2)) ∧
+    (1 / 384 * c (n - 3) + 19 / 96 * c (n - 2) + 115 / 192 * c (n - 1) + 19 / 96 * c (n - 2) + 1 / 384 * c (n - 3)
+      = f (n - 1)) := by
+  intro c
+  simp only [c]
+  have h96 : (96 : K) ≠ 0 := fun e => h384 (by linear_combination 4 * e)
+  have h192 : (192 : K) ≠ 0 := fun e => h384 (by linear_combination 2 * e)
+  have hl : l1 + l2 = 76 := hs
+  refine ⟨?_, ?_, ?_, ?_⟩
+  · rw [poleWeight_eq z1 l1 h1, poleWeight_eq z2 l2 h2]
+    linear_combination 2 * hs + hp
+  · intro k hk hk'
+    have key := twoPole_interior z1 z2 l1 l2 c1 c2 h1 h2 n (fun i => 384 * f i) k hk hk'
+    simp only [hs, hp] at key
+    field_simp
+    linear_combination 18432 * key
+  · have key := (twoPole_last z1 z2 l1 l2 c1 c2 h1 h2 hz1 hz2 n hn (fun i => 384 * f i)).1
+    simp only [hs, hp] at key
+    field_simp
+    linear_combination 18432 * key
+  · have key := (twoPole_last z1 z2 l1 l2 c1 c2 h1 h2 hz1 hz2 n hn (fun i => 384 * f i)).2
+    simp only [hs, hp] at key
+    field_simp
+    linear_combination 18432 * key
+
 /-- **C18-T3 (shape and corners).** `zoom` onto a requested shape returns an image of exactly that shape
 (also through `resize_to`, `resize_rgb_to`, `imresize` with an integer size, which pass the requested
 shape as `out`), output index 0 maps to input coordinate 0, and on every axis with at least two output
